@@ -1,9 +1,11 @@
 (* driver for the lexer model (family Lex: C19, C20): one input text per line
    op:   tl <lang 1|2> <allowBuiltin 0|1> <allowDirty 0|1> <hex text>
-   out:  <ok|err|panic|nofuel> n=.. all=.. rest=.. vok=.. rec=.. T=<type,len,line,col,slo,off;...> E=<-|msg18hex@outer@begin@end@corrupted> F=<tokerr|tokens|panic> *)
+   out:  <ok|err|panic|nofuel> n=.. all=.. rest=.. vok=.. rec=.. T=<type,len,line,col,slo,off;...> E=<-|msg18hex@outer@begin@end@corrupted> F=<tokerr|tokens|panic>
+         PM=<ok|tokerr|panic|nofuel|err:msg30hex@outer@begin@end>   (parser models: TL1 for lang 1, TL2 for lang 2) *)
 open Conv
 open LexModel
 open LexParse1Model
+open LexParse2Model
 
 let si = string_of_int
 let pos_s (p : pos) =
@@ -30,7 +32,7 @@ let msg = function
   | E1_targ_type -> "template argument type can be either 'Type' or '#'"
   | E1_targ_close -> "'}' after template argument type expected"
   | E1_rparen -> "')' expected"
-  | E1_const_overflow -> "constant overflows uint32: "
+  | E1_const_overflow -> "constant overflows uint32: strconv.ParseUint"
   | E1_arith_expected -> "arithmetic expression expected after '+'"
   | E1_arith_overflow -> "arithmetic expression overflows uint32"
   | E1_lsq_after_star -> "'[' is expected after '*'"
@@ -47,6 +49,32 @@ let msg = function
   | E1_comma_gt_type -> "',', '>' or type expected here"
   | E1_gt_or_type -> "'>' or type expected here"
   | E1_name -> "name (with optional namespace) expected"
+  | E2_type_name -> "expected type name"
+  | E2_func_or_type -> "expected either function or type declaration"
+  | E2_semicolon -> "expected semicolon in the end of combinator definition"
+  | E2_uint_conv -> "strconv.ParseUint"
+  | E2_magic_zero -> "magic should not be 0, use 'openssl rand -hex 4'"
+  | E2_func_magic -> "function must have magic, use 'openssl rand -hex 4'"
+  | E2_cant_parse_decl -> "can't parse type declaration"
+  | E2_targ_decl -> "expected type argument declaration"
+  | E2_targs_close -> "can't stop parse template arguments without closing brackets"
+  | E2_wrong_brackets -> "wrong type of opening brackets for generics"
+  | E2_alias_ref -> "expected reference to type for aliasing"
+  | E2_first_variant_fail -> "can't parse first variant"
+  | E2_first_variant_expected -> "expected first variant of union"
+  | E2_variant_after_bar -> "expected union variant definition after vertical var"
+  | E2_at_least_1 -> "expected at least 1 variants of union type"
+  | E2_one_constructor -> "union with one constructor can't be without vertical bar before declaration"
+  | E2_colon_after_constructor -> "unexpected colon after one field union constructor declaration"
+  | E2_ignored_optional -> "ignored field can't be optional"
+  | E2_no_colon -> "can't parse field since there is no colon after field name declaration"
+  | E2_field_type -> "expected type of field"
+  | E2_type_arg -> "expected type argument"
+  | E2_type_args_close -> "can't parse type arguments without closing bracket in the end"
+  | E2_sq_close -> "expected closing square bracket"
+  | E2_array_type -> "expected array type argument"
+  | E2_targ_unexpected -> "unexpected token during type argument declaration"
+  | E2_type_category -> "unexpected type category "
 
 (* the long messages of the TL2 classes differ after the quoted token; the class is visible in the suffix *)
 let cls = function
@@ -58,6 +86,7 @@ let hex_of_string (s : string) =
   Buffer.contents buf
 
 let prefix18 s = if String.length s <= 18 then s else String.sub s 0 18
+let prefix30 s = if String.length s <= 30 then s else String.sub s 0 30
 
 let run = function
   | ["tl"; lg; b; d; h] ->
@@ -99,13 +128,12 @@ let run = function
        ^ " n=" ^ si (List.length r.r_toks) ^ " all=" ^ si (List.length r.r_all) ^ " rest=" ^ si (List.length r.r_rest)
        ^ " vok=" ^ (if !vok then "1" else "0") ^ " rec=" ^ (if rec_ok then "1" else "0")
        ^ " T=" ^ (if Buffer.length buf = 0 then "-" else Buffer.contents buf)
-       ^ " E=" ^ e ^ " F=" ^ f ^ " P1=" ^
-       (if lg = "2" then "-" else
-        match parseTLFile o s with
+       ^ " E=" ^ e ^ " F=" ^ f ^ " PM=" ^
+       (match (if lg = "2" then parseTL2File o s else parseTLFile o s) with
         | PR_ok -> "ok"
         | PR_err (true, _) -> "tokerr"
         | PR_err (false, e) ->
-          "err:" ^ hex_of_string (prefix18 (msg e.e_kind)) ^ "@" ^ pos_s e.e_outer ^ "@" ^ pos_s (e_begin e) ^ "@" ^ pos_s (e_end e)
+          "err:" ^ hex_of_string (prefix30 (msg e.e_kind)) ^ "@" ^ pos_s e.e_outer ^ "@" ^ pos_s (e_begin e) ^ "@" ^ pos_s (e_end e)
         | PR_panic -> "panic"
         | PR_nofuel -> "nofuel"))
   | l -> "driver-error unknown op " ^ String.concat " " l
